@@ -42,6 +42,13 @@ CLAIMS["C20"] = (
     "DESIGN.md §3 C20",
 )
 
+CLAIMS["C12"] = (
+    "field-store ownership scan + paired-update path rule on SSA + loop-shape check of the index builder + mutator reachability for value-only verbs",
+    "Decides the integrity of the record data structure all restructuring verbs rely on: structural fields of Mlrmap/MlrmapEntry are written only in package mlrval; every link/unlink primitive adjusts FieldCount and the lazily built key index on the same paths; every key change deletes the old index key and inserts the new one; buildIndex is a total Head→Next walk with first-occurrence-wins and findEntry uses the index only when it exists; the value-only verbs reach no structural mutator on their input record. It does not decide what each verb does to the fields it names, nor inverse-pair laws.",
+    "Trusts go/ssa; a whole-map replacement (*m = *other) is taken as self-consistent; exemptions (unlinked fresh entries) are named in checker/c12.go.",
+    "DESIGN.md §3 C12",
+)
+
 NOT_APPLICABLE = {
     "C13": "Join pairing, ordering and unpaired accounting are relational identities over run-time key values and bucket contents; no clause is a shape fact visible to static analysis (the shared protocol facts are reported under C04/C10/C17).",
 }
